@@ -46,6 +46,105 @@ def blocking_sites(eng, fb, f):
     return out
 
 
+def never_empty_result(fb, g, depth=0):
+    """every return of g hands out a pointer-like object built around the address of an object / a fresh allocation,
+    or the result of a function for which the same holds"""
+    if g is None or g.invalid or depth > 4:
+        return False
+    rets = [s for s in g.stmts.values() if s["k"] == "ReturnStmt"]
+    if not rets:
+        return False
+    for r in rets:
+        ch = g.children(r)
+        e = unwrap(g, ch[0]) if ch else None
+        while e is not None and e["k"] in CTORS and len(e["args"]) == 1:
+            e = unwrap(g, g.s(e["args"][0]))
+        if e is None:
+            return False
+        if e["k"] in CTORS and e["args"]:
+            a0 = unwrap(g, g.s(e["args"][0]))
+            if a0 is not None and (a0["k"] == "CXXNewExpr" or a0["k"] == "UnaryOperator" and a0.get("op") == "&"):
+                continue
+            return False
+        if e["k"] in CALLS and never_empty_result(fb, fb.callee_fn(g, e), depth + 1):
+            continue
+        return False
+    return True
+
+
+def wait_on_value_only(eng, fb, f, st):
+    """`st` is a yield/sleep inside a retry loop whose only exit test is the emptiness of a local that is (re)filled from
+    an in-repo call r(...) and every acquisition r itself makes always succeeds (handle summary: owned on every path, no
+    try/timed lock object, no atomic it branches on).  Then r comes back empty only if a STORED value is empty, which is a
+    value invariant these rules do not decide: returns the text of that question, else None (the wait is real)."""
+    pos = f.pos_of(st)
+    if pos is None:
+        return None
+    for h, body in f.loops():
+        if pos[0] not in body:
+            continue
+        conds = []
+        for b in body:
+            blk = f.blocks[b]
+            if blk.term and blk.term.get("cond") and any(s is not None and s not in body for s in blk.succs):
+                conds.append(f.s(blk.term["cond"]))
+        if len(conds) != 1:
+            return None
+        c = unwrap(f, conds[0])
+        if c is not None and c["k"] == "UnaryOperator" and c.get("op") == "!":
+            c = unwrap(f, f.children(c)[0])
+        while c is not None and c["k"] in ("CXXMemberCallExpr",) and (c.get("callee") or {}).get("name") == "operator bool":
+            c = unwrap(f, f.s(c["obj"]))
+        if c is None or c["k"] != "DeclRefExpr" or c["d"].get("k") != "local":
+            return None
+        var = path(f, c)
+        srcs = []
+        for s2 in f.stmts.values():
+            if s2["k"] == "DeclStmt":
+                srcs += [f.s(d.get("init")) for d in s2["decls"] if "l:" + d["name"] == var]
+            elif s2["k"] in ("BinaryOperator", "CXXOperatorCallExpr") and (s2.get("op") == "=" or (s2.get("callee") or {}).get("name") == "operator="):
+                ch = f.children(s2) if s2["k"] == "BinaryOperator" else [f.s(a) for a in s2["args"]]
+                if len(ch) == 2 and path(f, ch[0]) == var:
+                    srcs.append(ch[1])
+            elif var in assigned_paths(f, s2) and s2["k"] not in ("DeclRefExpr",):
+                return None
+        if not srcs:
+            return None
+        rs = set()
+        for s_ in srcs:
+            u = unwrap(f, s_)
+            while u is not None and u["k"] in CTORS and len(u["args"]) == 1:
+                u = unwrap(f, f.s(u["args"][0]))
+            r = fb.callee_fn(f, u) if u is not None and u["k"] in CALLS else None
+            if r is None or r.invalid:
+                return None
+            rs.add(r)
+        for r in rs:
+            la = locks_of(eng, fb, r)
+            if any(kind in ("try", "timed") for _p, _k, _v, kind, _s in la.acquire_events) or any(True for _ in atomic_ops(r)):
+                return None
+            n = 0
+            for c2 in r.stmts.values():
+                if c2["k"] in CALLS and (c2.get("callee") or {}).get("inrepo") and fb.callee_fn(r, c2) is not None:
+                    g2 = fb.callee_fn(r, c2)
+                    if g2.kind in ("ctor", "dtor") or g2.name.startswith("operator"):
+                        continue
+                    summ = eng.handle_summary_of_call(r, c2)
+                    if summ is None and never_empty_result(fb, g2) and not any(
+                            kind in ("try", "timed") for _p, _k, _v, kind, _s in locks_of(eng, fb, g2).acquire_events):
+                        n += 1
+                        continue
+                    if not summ or any(a.get("st") != "held" for a in summ):
+                        return None
+                    n += 1
+            if n == 0:
+                return None
+        return "%s waits until %s returns a non-empty value; every acquisition inside %s always succeeds, so whether the " \
+               "loop ever runs depends on a stored value being empty" % ("%s::%s (%s)" % ((f.rec or "").split("::")[-1], f.name, f.where), ", ".join(sorted(r.name for r in rs)),
+                                                                        ", ".join(sorted(r.name for r in rs)))
+    return None
+
+
 def _body_sources(f, var, body):
     """right-hand sides of every (re)definition of local `var` inside the loop body, or None when one of them is
     not a plain assignment / initialisation"""
